@@ -124,7 +124,7 @@ static void mk(Slot &s, int kind)
   __CPROVER_assume(s.ra.i.den.v >= 1 && s.co.real_.den.v >= 1 && s.co.imaginary_.den.v >= 1);
   /* cache invariant of Basic::hash_: 0 (not yet computed) or the value of __hash__() */
   hash_t h = s.b.__hash__();
-  s.b.hash_ = nondet_boolean() ? 0 : h;
+  if (nondet_boolean()) s.b.hash_ = 0; else s.b.hash_ = h;      /* no ?: — the front end types "c ? 0 : ulong" as int */
 }
 static bool has_nan(const Slot &s)
 {
